@@ -74,6 +74,11 @@ theorem natList_shape (sh : List Nat) :
     have : ¬ ((n : Int) < 0) := by omega
     simp [this]
 
+theorem objHook_array (data dt sh : PyVal) :
+    objHook [("data", data), ("dtype", dt), ("_is_numpy_array", .bool true), ("shape", sh)] = mkArray data dt sh := rfl
+
+theorem objHook_set (data : PyVal) : objHook [("data", data), ("_is_set", .bool true)] = mkSet data := rfl
+
 /-- the array clause of the round trip -/
 theorem dec_enc_ndarray (dt : String) (sh : List Nat) (data : PyVal)
     (h : wf (.ndarray dt sh data) = true) :
@@ -85,18 +90,8 @@ theorem dec_enc_ndarray (dt : String) (sh : List Nat) (data : PyVal)
     rw [hk] at h
     simp only [Bool.and_eq_true, beq_iff_eq] at h
     obtain ⟨hl, hs⟩ := h
-    simp only [enc, dec, decKVs, dec_enc_leaves k data hl, decList_shape, bind_ok, Except.bind]
-    simp only [objHook, lookup]
-    simp only [show (("data" : String) == "_is_numpy_array") = false by decide,
-      show (("dtype" : String) == "_is_numpy_array") = false by decide,
-      show (("_is_numpy_array" : String) == "_is_numpy_array") = true by decide,
-      show (("data" : String) == "data") = true by decide,
-      show (("data" : String) == "dtype") = false by decide,
-      show (("dtype" : String) == "dtype") = true by decide,
-      show (("data" : String) == "shape") = false by decide,
-      show (("dtype" : String) == "shape") = false by decide,
-      show (("_is_numpy_array" : String) == "shape") = false by decide,
-      show (("shape" : String) == "shape") = true by decide]
+    simp only [enc, dec, decKVs, dec_enc_leaves k data hl, decList_shape, Except.bind]
+    rw [objHook_array]
     simp [mkArray, hk, natList_shape, hl, hs]
 
 /-! ### sets -/
@@ -199,12 +194,8 @@ mutual
       obtain ⟨⟨hh, hd⟩, hw⟩ := h
       simp only [enc, dec, decKVs, norm]
       rw [dec_enc_list xs hw]
-      simp only [bind_ok, Except.bind, objHook, lookup]
-      simp only [show (("data" : String) == "_is_numpy_array") = false by decide,
-        show (("_is_set" : String) == "_is_numpy_array") = false by decide,
-        show (("data" : String) == "_is_set") = false by decide,
-        show (("_is_set" : String) == "_is_set") = true by decide,
-        show (("data" : String) == "data") = true by decide]
+      simp only [Except.bind]
+      rw [objHook_set]
       simp only [mkSet, all_hashable_norm xs hh, if_true]
       rw [foldl_setAdd_distinct (normList xs) [] (pairwiseDistinct_norm xs hh hd) (by simp)]
       simp
@@ -286,6 +277,75 @@ mutual
       simp only [wfKVs, Bool.and_eq_true] at h
       simp only [normKVs, wfKVs, Bool.and_eq_true]
       exact ⟨⟨h.1.1, wf_norm_aux v h.1.2⟩, wfKVs_norm kvs h.2⟩
+end
+
+end PyPhysim.C17
+
+namespace PyPhysim.C17
+
+/-! ### `norm` keeps every value -/
+
+theorem sameValue_scalar_norm (v : PyVal) (h : hashable v = true) : sameValue v (norm v) = true := by
+  cases v with
+  | none => rfl
+  | bool b => simp [norm, sameValue, numOf, isNegZero]
+  | int i => simp [norm, sameValue, numOf, isNegZero]
+  | float f => cases f <;> simp [norm, sameValue, numOf, isNegZero]
+  | str s => simp [norm, sameValue]
+  | npint s w i => simp [norm, sameValue, numOf, isNegZero]
+  | npfloat w f => cases f <;> simp [norm, sameValue, numOf, isNegZero]
+  | npbool b => simp [norm, sameValue, numOf, isNegZero]
+  | list xs => simp [hashable] at h
+  | set xs => simp [hashable] at h
+  | ndarray dt sh d => simp [hashable] at h
+  | dict kvs => simp [hashable] at h
+
+mutual
+  theorem sameValue_refl : ∀ v : PyVal, sameValue v v = true
+    | .none => rfl
+    | .bool b => by simp [sameValue, numOf]
+    | .int i => by simp [sameValue, numOf]
+    | .float f => by cases f <;> simp [sameValue, numOf]
+    | .str s => by simp [sameValue]
+    | .npint s w i => by simp [sameValue, numOf]
+    | .npfloat w f => by cases f <;> simp [sameValue, numOf]
+    | .npbool b => by simp [sameValue, numOf]
+    | .list xs => by simp only [sameValue]; exact sameValueList_refl xs
+    | .set xs => by simp only [sameValue]; exact sameValueList_refl xs
+    | .ndarray dt sh d => by simp only [sameValue, beq_self_eq_true, Bool.true_and]; exact sameValue_refl d
+    | .dict kvs => by simp only [sameValue]; exact sameValueKVs_refl kvs
+  theorem sameValueList_refl : ∀ xs : List PyVal, sameValueList xs xs = true
+    | [] => rfl
+    | x :: xs => by simp only [sameValueList, sameValue_refl x, sameValueList_refl xs, Bool.and_self]
+  theorem sameValueKVs_refl : ∀ kvs : List (String × PyVal), sameValueKVs kvs kvs = true
+    | [] => rfl
+    | (k, v) :: kvs => by
+      simp only [sameValueKVs, beq_self_eq_true, sameValue_refl v, sameValueKVs_refl kvs, Bool.and_self]
+end
+
+mutual
+  theorem sameValue_norm_aux : ∀ v : PyVal, sameValue v (norm v) = true
+    | .none => rfl
+    | .bool b => sameValue_scalar_norm _ rfl
+    | .int i => sameValue_scalar_norm _ rfl
+    | .float f => sameValue_scalar_norm _ rfl
+    | .str s => sameValue_scalar_norm _ rfl
+    | .npint s w i => sameValue_scalar_norm _ rfl
+    | .npfloat w f => sameValue_scalar_norm _ rfl
+    | .npbool b => sameValue_scalar_norm _ rfl
+    | .list xs => by simp only [norm, sameValue]; exact sameValueList_norm xs
+    | .set xs => by simp only [norm, sameValue]; exact sameValueList_norm xs
+    | .ndarray dt sh d => by simp only [norm]; exact sameValue_refl _
+    | .dict kvs => by simp only [norm, sameValue]; exact sameValueKVs_norm kvs
+  theorem sameValueList_norm : ∀ xs : List PyVal, sameValueList xs (normList xs) = true
+    | [] => rfl
+    | x :: xs => by
+      simp only [normList, sameValueList, sameValue_norm_aux x, sameValueList_norm xs, Bool.and_self]
+  theorem sameValueKVs_norm : ∀ kvs : List (String × PyVal), sameValueKVs kvs (normKVs kvs) = true
+    | [] => rfl
+    | (k, v) :: kvs => by
+      simp only [normKVs, sameValueKVs, beq_self_eq_true, sameValue_norm_aux v, sameValueKVs_norm kvs,
+        Bool.and_self]
 end
 
 end PyPhysim.C17
